@@ -590,17 +590,276 @@ def solve_case(case):
 
 
 # ----------------------------------------------------------------------------------------------
+# re-solve part: ONE BoundariesList object is re-used after a condition was changed through its public
+# interface (``value`` setter, ``MixedBC.const``, the array handed to ``link_value``)
+# ----------------------------------------------------------------------------------------------
+
+FN_RESOLVE = "checks.c18:resolve_case"
+
+RESOLVE_GRIDS = [
+    ["unit", [3], [False]],
+    ["cart", [[0, 1]], [4], [False]],  # dx = 0.25
+    ["cart", [[0, 1], [-1, 3]], [2, 3], [False, False]],  # dx = 0.5, 4/3
+    ["cart", [[0, 1], [-1, 3]], [3, 2], [True, False]],
+    ["polar", [1, 2], 3],
+    ["polar", 2, 3],
+    ["sph", [1, 2], 3],
+    ["sph", 2, 3],
+    ["cyl", [1, 2], [0, 1], [2, 3], False],
+    ["cyl", 2, [-1, 1], [3, 2], False],
+    ["cyl", [0.5, 1.5], [0, 2], [2, 2], True],
+]
+RESOLVE_GRIDS_THOROUGH = [
+    ["unit", [2], [False]],
+    ["cart", [[0, 1], [0, 2], [0, 3]], [2, 2, 3], [False, False, False]],
+    ["cart", [[0, 1], [0, 2], [-3, 3]], [2, 3, 2], [False, True, False]],
+    ["polar", [0.5, 3], 4],
+    ["sph", [2, 2.5], 4],
+    ["cyl", 1, [0, 3], [2, 4], True],
+]
+
+
+def enumerate_resolve(tier, seed):
+    """every (grid, side that carries a condition, kind of change, way of changing it)"""
+    vals = bc_values(seed)
+    new = {"v": vals["v"] + 1.75, "d": vals["d"] + 1.125, "g1": vals["g1"] + 0.75, "beta": vals["beta"] - 1.25,
+           "k": vals["k"] - 2.0, "g0": vals["g0"]}
+    cases = []
+    for spec in RESOLVE_GRIDS + (RESOLVE_GRIDS_THOROUGH if tier == "thorough" else []):
+        geo = geometry(spec)
+        n = geo["num_axes"]
+        hole = not (geo["axes"][0] == "r" and geo["bounds"][0][0] == 0)
+        for axis in range(n):
+            if geo["periodic"][axis]:
+                continue
+            face = [m for i, m in enumerate(geo["shape"]) if i != axis]
+            for upper in (False, True):
+                if axis == 0 and not upper and not hole:
+                    continue  # r = 0 is no boundary: the condition given there does not enter the operator
+                # the other sides: Dirichlet opposite, Robin / Neumann elsewhere (non-singular unless the changed
+                # condition is a curvature condition on a 1-axis grid, which is handled through compatible rhs)
+                kinds = [None if geo["periodic"][a] else ("mixed", "derivative") for a in range(n)]
+                kinds[axis] = ("value", "value")
+                base = make_case(spec, kinds, vals)["bc"]
+                key = geo["axes"][axis] + ("+" if upper else "-")
+                variants = [
+                    ("value", side_spec("value", face, vals), side_spec("value", face, new), "setter"),
+                    ("derivative", side_spec("derivative", face, vals), side_spec("derivative", face, new), "setter"),
+                    ("mixed value", side_spec("mixed", face, vals), {**side_spec("mixed", face, vals), "value": new["g1"]}, "setter"),
+                    ("mixed const", side_spec("mixed", face, vals), {**side_spec("mixed", face, vals), "const": new["beta"]}, "setter"),
+                    ("mixed value+const", side_spec("mixed", face, vals), side_spec("mixed", face, new), "setter"),
+                    ("curvature", side_spec("curvature", face, vals), side_spec("curvature", face, new), "setter"),
+                    ("value 0 -> v", side_spec("value0", face, vals), side_spec("value", face, new), "setter"),
+                ]
+                if n > 1:
+                    variants += [
+                        ("value scalar -> per-face array", side_spec("value", face, vals), side_spec("value_arr", face, new), "setter"),
+                        ("curvature per-face array -> scalar", side_spec("curvature_arr", face, vals), side_spec("curvature", face, new), "setter"),
+                        ("value per-face array", side_spec("value_arr", face, vals), side_spec("value_arr", face, new), "setter"),
+                        ("value linked array", side_spec("value_arr", face, vals), side_spec("value_arr", face, new), "link"),
+                        ("derivative linked array", {"type": "derivative", "value": side_spec("value_arr", face, vals)["value"]},
+                         {"type": "derivative", "value": side_spec("value_arr", face, new)["value"]}, "link"),
+                        ("curvature linked array", side_spec("curvature_arr", face, vals), side_spec("curvature_arr", face, new), "link"),
+                    ]
+                for name, old_side, new_side, route in variants:
+                    bc = dict(base)
+                    bc[key] = old_side
+                    cases.append({"grid": spec, "bc": bc, "key": key, "axis": axis, "upper": upper, "new": new_side,
+                                  "variant": name, "route": route})
+    return cases
+
+
+def resolve_case(case):
+    """solve with one BoundariesList, change one condition through its public interface, solve again with the
+    SAME object (must solve the problem for the NEW data and equal the solution obtained with freshly built
+    conditions), change back, solve a third time (must equal the first)"""
+    import numpy as np
+    from pde import ScalarField, solve_laplace_equation, solve_poisson_equation
+
+    spec, bcj, key, new_side, route = case["grid"], case["bc"], case["key"], case["new"], case["route"]
+    geo = geometry(spec)
+    grid = make_grid(spec)
+    shape = tuple(geo["shape"])
+    N = int(np.prod(shape))
+    gname = grid_name(spec)
+    old_side = bcj[key]
+    kind = old_side["type"]
+    side = _side_name(geo, case["axis"], case["upper"])
+    # family = grid class x kind of condition x way of changing it (the variant and the side are in the message)
+    what = f"{kind} condition changed through " + ("the array given to link_value" if route == "link" else "its public setter")
+    viol, seen, nexec = [], set(), 0
+
+    def report(clause, msg, detail=None):
+        sig = f"{CLASS[spec[0]]}|re-solve|{what}|{clause}"
+        if sig not in seen:
+            seen.add(sig)
+            viol.append({"sig": sig, "msg": f"{gname} bc={bcj!r}, {side} side ({key}), {case['variant']} -> {new_side!r}: {msg}",
+                         "detail": detail})
+
+    bc_old = _np_bc(np, bcj)
+    bc_new = _np_bc(np, {**bcj, key: new_side})
+
+    # independent description of both problems: operators extracted with FRESHLY built conditions
+    def extract(bcdict):
+        fresh = grid.get_boundary_conditions(bcdict)
+
+        def L(vec):
+            return np.array(ScalarField(grid, np.array(vec.reshape(shape), dtype=float)).laplace(fresh).data, dtype=float).ravel()
+
+        b = L(np.zeros(N))
+        A = np.empty((N, N))
+        for k in range(N):
+            e = np.zeros(N)
+            e[k] = 1.0
+            A[:, k] = L(e) - b
+        return L, A, b
+
+    L0, A0, b0 = extract(bc_old)
+    L1, A1, b1 = extract(bc_new)
+    nexec += 2 * (N + 1)
+    if np.array_equal(A0, A1) and np.array_equal(b0, b1):
+        return {"nt": False, "out": "the change does not alter the discrete problem", "n": nexec}
+    S = np.linalg.svd(A1, compute_uv=False)
+    smax = max(float(S[0]), max(1.0 / d**2 for d in geo["dx"]))
+    singular = not (S[-1] > 0 and smax / float(S[-1]) < COND_SINGULAR)
+
+    # right-hand sides: the determining set of the new problem (zero and every e_k; for a singular problem the
+    # spanning set b1 + A1 e_k of its compatible rhs) and, for singular problems, the compatible rhs of the OLD one
+    rhs = [("zero", np.zeros(N))]
+    for k in range(N):
+        e = np.zeros(N)
+        e[k] = 1.0
+        if singular:
+            rhs.append((f"b1+A1.e{k}", b1 + A1[:, k]))
+            rhs.append((f"b0+A0.e{k}", b0 + A0[:, k]))
+        else:
+            rhs.append((f"e{k}", e))
+    if singular:
+        rhs += [("b1", b1.copy()), ("b0", b0.copy())]
+
+    def solve_all(cond):
+        nonlocal nexec
+        out = {}
+        for label, r in rhs:
+            nexec += 1
+            try:
+                u = solve_poisson_equation(ScalarField(grid, r.reshape(shape)), cond)
+                out[label] = np.array(u.data, dtype=float).ravel()
+            except Exception as exc:  # noqa: BLE001  (RuntimeError = loud refusal; anything else is reported below)
+                out[label] = f"{type(exc).__name__}: {_short(exc)}"
+        nexec += 1
+        try:
+            out["laplace"] = np.array(solve_laplace_equation(grid, cond).data, dtype=float).ravel()
+        except Exception as exc:  # noqa: BLE001
+            out["laplace"] = f"{type(exc).__name__}: {_short(exc)}"
+        return out
+
+    def same(x, y):
+        if isinstance(x, str) or isinstance(y, str):
+            return isinstance(x, str) and isinstance(y, str) and x.split(":")[0] == y.split(":")[0]
+        # identical linear systems solved by the same deterministic algorithm: eps * cond * |u| at most
+        return bool(np.all(np.isfinite(x)) and np.all(np.abs(x - y) <= 1e-10 * (1 + np.abs(y).max())))
+
+    def solves(u, r, L, b):
+        if isinstance(u, str) or not np.all(np.isfinite(u)):
+            return False
+        return bool(np.all(np.abs(L(u) - r) <= TOL * (1 + np.abs(r - b))))
+
+    # the ONE object that is re-used; conditions are changed through the public interface only
+    bcs = grid.get_boundary_conditions(bc_old)
+    target = bcs[case["axis"]].high if case["upper"] else bcs[case["axis"]].low
+    linked = None
+    if route == "link":
+        linked = np.array(bc_old[key]["value"], dtype=float)
+        target.link_value(linked)
+
+    def change(to):
+        frm = {"type": kind, "value": target.value if linked is None else None, "const": getattr(target, "const", None)}
+        if route == "link":
+            linked[...] = np.array(to["value"], dtype=float)
+            return
+        val = np.array(to["value"], dtype=float) if isinstance(to["value"], list) else to["value"]
+        cur = np.asarray(frm["value"], dtype=float)
+        if cur.shape != np.shape(val) or not np.array_equal(cur, val):
+            target.value = val  # only what differs is set: a change of beta alone never calls the value setter
+        if "const" in to and float(np.asarray(frm["const"])) != float(to["const"]):
+            target.const = to["const"]
+
+    first = solve_all(bcs)
+    change(new_side)
+    w = np.cos(1.0 + 1.7 * np.arange(N)) + 0.3
+    ghost = np.array(ScalarField(grid, w.reshape(shape)).laplace(bcs).data, dtype=float).ravel()
+    nexec += 1
+    if not np.all(np.abs(ghost - L1(w)) <= 1e-11 * (1 + np.abs(L1(w)).max())):
+        report("Laplacian with the re-used conditions differs from the one with freshly built conditions",
+               f"max difference {float(np.abs(ghost - L1(w)).max()):.3g}")
+    second = solve_all(bcs)
+    fresh = solve_all(grid.get_boundary_conditions(bc_new))
+    change(old_side)
+    third = solve_all(bcs)
+
+    nfield = 0
+    for label, r in rhs + [("laplace", np.zeros(N))]:
+        u2, uf, u1, u3 = second[label], fresh[label], first[label], third[label]
+        nfield += not isinstance(uf, str)  # fields returned for the reference (freshly built conditions)
+        for phase, u in (("first", u1), ("second", u2), ("third", u3), ("fresh", uf)):
+            if isinstance(u, str) and not u.startswith("RuntimeError"):
+                report(f"unexpected {u.split(':')[0]} in the {phase} solve", f"rhs={label}: {u}")
+        if not same(u2, uf):
+            if solves(u2, r, L0, b0) and not solves(u2, r, L1, b1):
+                report("second solve returns the solution for the OLD boundary data",
+                       f"rhs={label}: the field solves the problem with the old condition, max residual for the new one "
+                       f"{float(np.abs(L1(u2) - r).max()):.3g}; freshly built conditions give "
+                       + ("an exception" if isinstance(uf, str) else f"a field differing by {float(np.abs(u2 - uf).max()):.3g}"),
+                       detail={"rhs": r.tolist(), "second": u2.tolist(), "fresh": uf if isinstance(uf, str) else uf.tolist()})
+            else:
+                report("second solve differs from the solve with freshly built conditions",
+                       f"rhs={label}: re-used object -> {u2 if isinstance(u2, str) else 'field'}, fresh object -> "
+                       f"{uf if isinstance(uf, str) else 'field'}"
+                       + ("" if isinstance(u2, str) or isinstance(uf, str) else f", max difference {float(np.abs(u2 - uf).max()):.3g}"))
+        elif not isinstance(u2, str) and not solves(u2, r, L1, b1):
+            report("second solve does not solve the discrete problem for the new data",
+                   f"rhs={label}: max residual {float(np.abs(L1(u2) - r).max()):.3g}")
+        if not same(u3, u1):
+            report("third solve (condition changed back) differs from the first",
+                   f"rhs={label}: first -> {u1 if isinstance(u1, str) else 'field'}, third -> {u3 if isinstance(u3, str) else 'field'}"
+                   + ("" if isinstance(u1, str) or isinstance(u3, str) else f", max difference {float(np.abs(u1 - u3).max()):.3g}"))
+        elif not singular and not isinstance(u1, str) and not solves(u1, r, L0, b0):
+            report("first solve does not solve the discrete problem", f"rhs={label}")
+    if nfield == 0:
+        return {"v": viol, "nt": False, "ref": "re-solve: every right-hand side refused (RuntimeError)", "out": "refused", "n": nexec}
+    return {"v": viol[:4], "n": nexec, "nt": True,
+            "key": f"{gname}|{key}|{case['variant']}|{route}",
+            "out": ("singular" if singular else "non-singular") + (": violation" if viol else ": 3 solves consistent")}
+
+
+# ----------------------------------------------------------------------------------------------
 
 
 def main(run):
-    cases = enumerate_cases(run.tier, run.seed)
-    res = run.explore(FN, cases, mode="I", part="all rhs per (grid, BC assignment)", collect=True, chunksize=8)
+    only = getattr(run, "only", None)  # development aid: ./check C18 --only main,jit,resolve
+
+    def wanted(alias):
+        return not only or alias in only
+
     vals = bc_values(run.seed)
-    jit = [make_case(spec, kinds, vals) for spec, kinds in G_JIT]
-    if run.tier == "quick":
-        jit = jit[::2] + jit[-1:]
-    res += run.explore(FN, jit, mode="J", part="same worker under real JIT (compiled Laplacian)", collect=True,
-                       chunksize=1, nproc=min(12, len(jit)))
+    res, rres = [], []
+    if wanted("main"):
+        cases = enumerate_cases(run.tier, run.seed)
+        res += run.explore(FN, cases, mode="I", part="all rhs per (grid, BC assignment)", collect=True, chunksize=8)
+    if wanted("jit"):
+        jit = [make_case(spec, kinds, vals) for spec, kinds in G_JIT]
+        if run.tier == "quick":
+            jit = jit[::2] + jit[-1:]
+        res += run.explore(FN, jit, mode="J", part="same worker under real JIT (compiled Laplacian)", collect=True,
+                           chunksize=1, nproc=min(12, len(jit)))
+    if wanted("resolve"):
+        rcases = enumerate_resolve(run.tier, run.seed)
+        rres = run.explore(FN_RESOLVE, rcases, mode="I", part="re-solve with one BoundariesList after a public change",
+                           collect=True, chunksize=2)
+    if only:
+        run.exhaustive = False
+        run.caps.append(f"development run restricted to parts {sorted(only)}")
 
     tot = {k: 0 for k in ("solved", "compat_field", "compat_exc", "incompat_exc", "borderline")}
     nsing = 0
@@ -620,10 +879,12 @@ def main(run):
         else:
             cond_ns = max(cond_ns, info["cond"])
     counts: dict = {}
-    for case, r in res:
+    for case, r in res + rres:
         for v in r.get("v", []):
             counts[v["sig"]] = counts.get(v["sig"], 0) + 1
     run.notes["violating_problems_by_signature"] = dict(sorted(counts.items()))  # same seed => same numbers
+    run.notes["re_solve"] = {"cases": len(rres), "judged": sum(1 for _, r in rres if r.get("nt", True)),
+                             "change has no effect on the discrete problem": sum(1 for _, r in rres if r.get("out", "").startswith("the change"))}
     run.notes["problems"] = {"total": len(res), "singular": nsing, "non_singular": len(res) - nsing}
     run.notes["right_hand_sides"] = {
         "non-singular: field returned and residual within tolerance": tot["solved"],
@@ -663,6 +924,10 @@ def main(run):
         "inhomogeneous BC values are generic numbers moved by VERIF_SEED (gamma > 0); per-face arrays exercise the "
         "non-homogeneous branch of get_sparse_matrix_data on grids with more than one axis",
         "accepted refusal: RuntimeError only; any other exception type is a violation",
+        "re-solve part: the changed condition is the only difference between the two problems; 'public interface' = the "
+        "`value` setter, the attribute `MixedBC.const`, in-place change of the array handed to `link_value`; the oracle for "
+        "the second solve is built from FRESHLY constructed conditions (operator extraction and reference solution); "
+        "solutions of identical linear systems must agree to 1e-10 (1+|u|)",
     ]
     return (
         "grids of all five classes (2-4 cells per axis, 1-3 axes, with/without hole, periodic mixes, anisotropic spacing) x "
@@ -671,5 +936,8 @@ def main(run):
         "a rotating choice that itself runs through all ordered pairs (thorough: 3 rotations, more grids, and all 64x64 "
         "combinations of the scalar kinds on four 2-axis grids); per problem every right-hand side of the determining set "
         "(non-singular: 0 and every e_k; singular: 0, b, b+A e_k, b+e_k, b+1, b+left null vectors); distinct = distinct "
-        "(grid, BC assignment) on which at least one solve was judged"
+        "(grid, BC assignment) on which at least one solve was judged; re-solve part: every (small grid of each class, "
+        "side carrying a condition, kind of change: value / derivative / mixed gamma / mixed beta / both / curvature / "
+        "0->v / scalar<->per-face array / linked array) x the same determining set of rhs, three solves with ONE "
+        "BoundariesList (old data, new data, old data) against freshly built conditions"
     )
